@@ -75,11 +75,18 @@ void h_script_vnadata(void)
     STEP_INT("add_frequency", vnadata_add_frequency(vdp, 5.0), wf_vnadata(vdip));
 #endif
     STEP_INT("set_all_z0", vnadata_set_all_z0(vdp, (cell_t)z), wf_vnadata(vdip));
-    /* back to per-frequency z0, then init: a successful init leaves ordinary z0 (it allocates on the way back) */
+#ifndef S_ADD_FREQUENCY
+    /*
+     * back to per-frequency z0, then init: a successful init leaves ordinary z0 (it allocates on the way back).
+     * Not in the add_frequency variant: with its 51-slot frequency allocation the switch back to per-frequency
+     * z0 makes 52 more allocations and every one of the then 168 runs takes about 1000 s (thorough run 5: 126
+     * min for C12); the three steps are decided here, in the small variant.
+     */
     STEP_INT("set_fz0 again", vnadata_set_fz0(vdp, 0, 0, (cell_t)z), wf_vnadata(vdip));
     STEP_INT("init from fz0 mode", vnadata_init(vdp, VPT_S, 3, 3, 3), wf_vnadata(vdip));
     CHECK(!vnadata_has_fz0(vdp), "init: a successful init leaves ordinary z0 mode");
     STEP_INT("set_all_z0 after init", vnadata_set_all_z0(vdp, (cell_t)z), wf_vnadata(vdip));
+#endif
 #ifdef S_FORMAT
     /* the default format installed by vnadata_save / vnadata_load when none was set: vector, then its string */
     STEP_INT("set_simple_format", _vnadata_set_simple_format(vdip, VPT_S, VNADATA_FORMAT_REAL_IMAG), wf_vnadata(vdip));
